@@ -45,8 +45,7 @@ use super::*;
 pub mod toom_3 {
 use super::super::*;
 use super::super::mul;
-/// integer/src/mul/toom_3.rs:30 (mirrored)
-pub const MIN_LEN: usize = 16;
+//@@ CONST integer/memsize/c_toom_min_len.rs
 // debug_assert_zero #2..#10 (value facts, proved in int_mul_toom3) and #11 `carry.abs() <= 1` (exec abs) dropped
 //@@ FN integer/memsize/toom3_same_len.rs drop_asserts=2,3,4,5,6,7,8,9,10,11
 }
